@@ -88,15 +88,21 @@ func VerifStateIter(it segment.PostingsIterator) string {
 	if n := reflect.TypeOf(*i).NumField(); n != 15 {
 		panic(fmt.Sprintf("verif hook out of date: PostingsIterator has %d fields", n))
 	}
+	// the shared sentinel is named, but its state is dumped like any other iterator's: it must
+	// stay the zero value, and a change that lets something initialise it has to be visible
+	name := ""
 	if i == emptyPostingsIterator {
-		return "emptyPostingsIterator"
+		if reflect.DeepEqual(*i, PostingsIterator{}) {
+			return "emptyPostingsIterator"
+		}
+		name = "emptyPostingsIterator(NOT ZERO) "
 	}
 	own := "none"
 	if i.postings != nil {
 		own = fmt.Sprintf("po=%d own=%v cs=%d", i.postings.postingsOffset, i.postings.postings == i.ActualBM, i.postings.chunkSize)
 	}
-	return fmt.Sprintf("pl{%s} 1h=%d/%d chunk=%d ifn=%v il=%v all=%s act=%s same=%v fn=%s loc=%s capNL=%d capNSL=%d",
-		own, i.docNum1Hit, i.normBits1Hit, i.currChunk, i.includeFreqNorm, i.includeLocs,
+	return fmt.Sprintf("%spl{%s} 1h=%d/%d chunk=%d ifn=%v il=%v all=%s act=%s same=%v fn=%s loc=%s capNL=%d capNSL=%d",
+		name, own, i.docNum1Hit, i.normBits1Hit, i.currChunk, i.includeFreqNorm, i.includeLocs,
 		verifPeek(i.all), verifPeek(i.Actual), i.all == i.Actual,
 		verifDecoder(i.freqNormReader), verifDecoder(i.locReader), cap(i.nextLocs), cap(i.nextSegmentLocs))
 }
@@ -110,10 +116,14 @@ func VerifStatePL(l segment.PostingsList) string {
 	if n := reflect.TypeOf(*p).NumField(); n != 9 {
 		panic(fmt.Sprintf("verif hook out of date: PostingsList has %d fields", n))
 	}
+	name := ""
 	if p == emptyPostingsList {
-		return "emptyPostingsList"
+		if reflect.DeepEqual(*p, PostingsList{}) {
+			return "emptyPostingsList"
+		}
+		name = "emptyPostingsList(NOT ZERO) "
 	}
-	return fmt.Sprintf("sb=%v po=%d fo=%d lo=%d cs=%d 1h=%d/%d postings=%s except=%s",
+	return fmt.Sprintf(name+"sb=%v po=%d fo=%d lo=%d cs=%d 1h=%d/%d postings=%s except=%s",
 		p.sb != nil, p.postingsOffset, p.freqOffset, p.locOffset, p.chunkSize, p.docNum1Hit, p.normBits1Hit,
 		verifBitmap(p.postings), verifBitmap(p.except))
 }
